@@ -5,6 +5,7 @@ import (
 	"context"
 	"errors"
 	"math"
+	"os"
 	"sync"
 	"testing"
 	"time"
@@ -142,4 +143,24 @@ func errClass(err error) string {
 		return "invalid-count"
 	}
 	return "other"
+}
+
+// transient reports whether err is an unclassified (infrastructure) error: embedded etcd under
+// load occasionally times out; such calls are retried so that they are not mistaken for a refusal.
+func transient(err error) bool { return err != nil && errClass(err) == "other" }
+
+// retry runs f up to 4 times while it fails with a transient error.
+func retry(f func() error) error {
+	var err error
+	n := 4
+	if os.Getenv("VERIF_NORETRY") != "" {
+		n = 1
+	}
+	for i := 0; i < n; i++ {
+		if err = f(); !transient(err) {
+			return err
+		}
+		time.Sleep(time.Duration(50*(i+1)) * time.Millisecond)
+	}
+	return err
 }
